@@ -942,6 +942,275 @@ func c39readOne(r *vk.Run, rf *Framer, rd *c39reader, id func() string, what str
 	return f, err, declared, true
 }
 
+// c39streamScoped classifies a ReadFrame error by the framer's own documentation of Error
+// ("StreamId is 0 if Error is not associated with a stream"): a *Error with StreamId != 0 concerns
+// one stream, the session continues. Everything else is session-fatal.
+func c39streamScoped(err error) (slug string, scoped bool) {
+	e, ok := err.(*Error)
+	if !ok || e.StreamId == 0 {
+		return "", false
+	}
+	switch e.Err {
+	case UnlowercasedHeaderName:
+		slug = "unlowercased-name"
+	case DuplicateHeaders:
+		slug = "duplicate-headers"
+	case InvalidControlFrame:
+		slug = "invalid-control-frame"
+	case InvalidHeaderPresent:
+		slug = "invalid-header-present"
+	case ErrTooLongUrl:
+		slug = "url-too-long"
+	case InvalidDataFrame:
+		slug = "invalid-data-frame"
+	default:
+		slug = "other"
+	}
+	return slug, true
+}
+
+// ---------------------------------------------------------------- Part B4: a frame with a
+// stream-scoped defect in its header block, then every frame type
+
+type c39enc struct {
+	nozlib bool
+	z      *c39z
+}
+
+func (e *c39enc) hdrFrame(typ uint16, sid uint32, block []byte) []byte {
+	body := block
+	if !e.nozlib {
+		body = e.z.next(block)
+	}
+	pay := c39be32(sid)
+	if typ == 1 {
+		pay = append(pay, 0, 0, 0, 0, 0x60, 0)
+	}
+	pay = append(pay, body...)
+	return append(c39ctl(typ, 3, 0, uint32(len(pay))), pay...)
+}
+
+func c39pairsBlock(pairs [][2]string) []byte {
+	var fields [][]byte
+	for _, p := range pairs {
+		fields = append(fields, c39field(uint32(len(p[0])), p[0]), c39field(uint32(len(p[1])), p[1]))
+	}
+	return c39block(uint32(len(pairs)), fields...)
+}
+
+type c39victim struct {
+	name   string
+	header bool
+	bytes  func(e *c39enc) []byte
+	check  func(f Frame) bool
+}
+
+func c39victims() []*c39victim {
+	hv := func(typ uint16, name string) *c39victim {
+		return &c39victim{name, true, func(e *c39enc) []byte {
+			return e.hdrFrame(typ, 3, c39pairsBlock([][2]string{{"v1", "w1"}}))
+		}, func(f Frame) bool {
+			var sid StreamId
+			var h http.Header
+			switch x := f.(type) {
+			case *SynStreamFrame:
+				sid, h = x.StreamId, x.Headers
+			case *SynReplyFrame:
+				sid, h = x.StreamId, x.Headers
+			case *HeadersFrame:
+				sid, h = x.StreamId, x.Headers
+			}
+			same, _ := c39sameHeaders(http.Header{"v1": {"w1"}}, h)
+			return c39typeName(f) == name && sid == 3 && same
+		}}
+	}
+	plain := func(typ uint16, name string, check func(f Frame) bool) *c39victim {
+		return &c39victim{name, false, func(e *c39enc) []byte {
+			nat := c39naturalPayload(typ, nil)
+			return append(c39ctl(typ, 3, 0, uint32(len(nat))), nat...)
+		}, check}
+	}
+	return []*c39victim{
+		hv(1, "syn_stream"), hv(2, "syn_reply"), hv(8, "headers"),
+		plain(3, "rst_stream", func(f Frame) bool { x, ok := f.(*RstStreamFrame); return ok && x.StreamId == 1 && x.Status == 5 }),
+		plain(4, "settings", func(f Frame) bool {
+			x, ok := f.(*SettingsFrame)
+			return ok && len(x.FlagIdValues) == 1 && x.FlagIdValues[0] == SettingsFlagIdValue{1, 7, 0x10000}
+		}),
+		plain(6, "ping", func(f Frame) bool { x, ok := f.(*PingFrame); return ok && x.Id == 1 }),
+		plain(7, "goaway", func(f Frame) bool { x, ok := f.(*GoAwayFrame); return ok && x.LastGoodStreamId == 1 && x.Status == 0 }),
+		plain(9, "window_update", func(f Frame) bool { x, ok := f.(*WindowUpdateFrame); return ok && x.StreamId == 1 && x.DeltaWindowSize == 256 }),
+		{"data", false, func(e *c39enc) []byte { return append([]byte(nil), c39sentinelData...) }, func(f Frame) bool {
+			x, ok := f.(*DataFrame)
+			return ok && x.StreamId == 1 && x.Flags == 0 && string(x.Data) == "xy"
+		}},
+	}
+}
+
+type c39defect struct {
+	name  string
+	class string
+	pairs [][2]string
+}
+
+func c39defects() []c39defect {
+	var out []c39defect
+	base := func() [][2]string { return [][2]string{{"k0", "a"}, {"k1", "b"}, {"k2", "c"}} }
+	pos := []string{"first", "middle", "last"}
+	for p := 0; p < 3; p++ {
+		b := base()
+		b[p][0] = strings.ToUpper(b[p][0])
+		out = append(out, c39defect{"upper-case-name-" + pos[p], "upper-case-name", b})
+		b = base()
+		b[p][0] = "connection"
+		out = append(out, c39defect{"connection-header-" + pos[p], "connection-header", b})
+		b = base()
+		b[p] = [2]string{":path", "/" + c39rep("p", 16)} // reader's MaxHeaderUriSize is set to 16
+		out = append(out, c39defect{"long-path-" + pos[p], "long-path", b})
+	}
+	// duplicates fire at the second occurrence, and only for names whose canonical MIME form is
+	// the lower-case form (Header.Add canonicalises): pseudo-header style names
+	for _, ij := range [][2]int{{0, 1}, {0, 2}, {1, 2}} {
+		b := [][2]string{{":p0", "a"}, {":p1", "b"}, {":p2", "c"}}
+		b[ij[1]][0] = b[ij[0]][0]
+		out = append(out, c39defect{fmt.Sprintf("duplicate-name-%s-%s", pos[ij[0]], pos[ij[1]]), "duplicate-name", b})
+	}
+	out = append(out, c39defect{"no-defect", "no-defect", base()})
+	return out
+}
+
+func c39partB4(r *vk.Run) (int, int) {
+	victims := c39victims()
+	defects := c39defects()
+	idx := 0
+	for _, nozlib := range []bool{false, true} {
+		enc := &c39enc{nozlib: nozlib}
+		if !nozlib {
+			enc.z = c39newZ()
+		}
+		for _, typ := range []uint16{1, 2, 8} {
+			for di, d := range defects {
+				for _, sid := range []uint32{1, 2, 0} {
+					// followers: every victim alone, every ordered pair of victims
+					var seqs [][]int
+					for a := range victims {
+						seqs = append(seqs, []int{a})
+						for b := range victims {
+							seqs = append(seqs, []int{a, b})
+						}
+					}
+					for _, vs := range seqs {
+						idx++
+						if !r.Mine(idx) {
+							continue
+						}
+						id := vk.Key("b4", nozlib, typ, di, sid, fmt.Sprint(vs))
+						if !r.Case(id) {
+							continue
+						}
+						c39runB4(r, id, enc, typ, d, sid, victims, vs)
+					}
+				}
+			}
+		}
+	}
+	return len(defects), len(victims)
+}
+
+func c39runB4(r *vk.Run, id string, enc *c39enc, typ uint16, d c39defect, sid uint32, victims []*c39victim, vs []int) {
+	idf := func() string { return id }
+	if enc.z != nil {
+		enc.z.reset()
+	}
+	bad := enc.hdrFrame(typ, sid, c39pairsBlock(d.pairs))
+	stream := append([]byte(nil), bad...)
+	type exp struct {
+		v   *c39victim
+		end int
+	}
+	var exps []exp
+	for _, vi := range vs {
+		stream = append(stream, victims[vi].bytes(enc)...)
+		exps = append(exps, exp{victims[vi], len(stream)})
+	}
+	// always close with a header-carrying frame (compression context) and the plain sentinels
+	tail := &c39victim{"headers", true, nil, func(f Frame) bool {
+		x, ok := f.(*HeadersFrame)
+		if !ok || x.StreamId != 5 {
+			return false
+		}
+		same, _ := c39sameHeaders(http.Header{"s1": {"s2"}}, x.Headers)
+		return same
+	}}
+	stream = append(stream, enc.hdrFrame(8, 5, c39pairsBlock([][2]string{{"s1", "s2"}}))...)
+	exps = append(exps, exp{tail, len(stream)})
+	stream = append(append(stream, c39sentinelPing...), c39sentinelData...)
+
+	rd := &c39reader{b: stream}
+	var rf *Framer
+	if enc.nozlib {
+		rf = &Framer{headerCompressionDisabled: true, r: rd}
+	} else {
+		var err error
+		if rf, err = NewFramer(io.Discard, rd); err != nil {
+			r.Violation("machinery:newframer", id, err.Error())
+			return
+		}
+		defer rf.ReleaseWriter()
+	}
+	rf.MaxHeaderUriSize = 16
+	what := c39ctlTypeName(typ)
+	f, err, _, good := c39readOne(r, rf, rd, idf, what)
+	if !good {
+		return
+	}
+	label := "after-frame:" + what + ":" + d.class
+	_ = f
+	if err != nil {
+		slug, scoped := c39streamScoped(err)
+		if !scoped {
+			r.Outcome("b4:defective-frame:session-error:" + c39errClass(err))
+			return
+		}
+		r.Outcome("b4:defective-frame:stream-error:" + slug)
+		label = "after-stream-error:" + what + ":" + slug
+		if rd.off != len(bad) {
+			rel := "overrun"
+			if rd.off < len(bad) {
+				rel = "underrun"
+			}
+			r.Violation("read:"+label+":"+rel, id, fmt.Sprintf("%s stream %d with header block %q (%s): ReadFrame returned the stream-scoped error %q after consuming %d bytes of the %d-byte frame: the next ReadFrame starts inside it",
+				what, sid, d.pairs, d.name, err, rd.off, len(bad)))
+			return
+		}
+	} else {
+		r.Outcome("b4:defective-frame:returned")
+	}
+	r.NontrivialN(1)
+	for i, e := range exps {
+		g, gerr, _, ok := c39readOne(r, rf, rd, idf, "follower-of-"+what)
+		if !ok {
+			return
+		}
+		kind := "next-plain-frame-misread"
+		if e.v.header {
+			kind = "next-header-block-misread"
+		}
+		if gerr != nil || !e.v.check(g) || rd.off != e.end {
+			r.Violation("read:"+label+":"+kind, id, fmt.Sprintf("%s stream %d with header block %q (%s) was answered with err=%v; frame %d behind it, a well-formed %s, was then read as %s %+v err=%v (offset %d, frame ends at %d)",
+				what, sid, d.pairs, d.name, err, i+1, e.v.name, c39typeName(g), g, gerr, rd.off, e.end))
+			return
+		}
+	}
+	var sbad string
+	if p, pv := vk.Guard(func() { sbad = c39readSentinels(rf) }); p {
+		r.Violation("read:panic:sentinel-after-"+what+":"+vk.PanicSite(pv), id, pv)
+	} else if sbad != "" {
+		r.Violation("read:"+label+":next-plain-frame-misread", id, sbad)
+	}
+	r.Outcome("b4:followers-intact")
+}
+
 func c39naturalPayload(typ uint16, zblock []byte) []byte {
 	switch typ {
 	case 1:
@@ -988,9 +1257,32 @@ func c39partB1(r *vk.Run) {
 		}
 		if err != nil {
 			r.Outcome("hdr:err:" + c39errClass(err))
+			if slug, scoped := c39streamScoped(err); scoped && sentinels {
+				// The framer itself ties this error to ONE stream (Error.StreamId != 0): the
+				// connection goes on, so the frame must have been consumed exactly and the
+				// frames behind it must come back.
+				declared := binary.BigEndian.Uint32(stream[4:]) & 0xffffff
+				if got, want := rd.off, int(8+declared); got != want {
+					rel := "overrun"
+					if got < want {
+						rel = "underrun"
+					}
+					r.Violation("read:after-stream-error:"+what+":"+slug+":"+rel, id, fmt.Sprintf("stream % x: ReadFrame returned the stream-scoped error %q (StreamId %d) after consuming %d bytes of a %d-byte frame: the next ReadFrame starts at the wrong offset",
+						stream, err, err.(*Error).StreamId, got, want))
+					return
+				}
+				var bad string
+				if p, pv := vk.Guard(func() { bad = c39readSentinels(rf) }); p {
+					r.Violation("read:panic:sentinel-after-"+what+":"+vk.PanicSite(pv), id, pv)
+				} else if bad != "" {
+					r.Violation("read:after-stream-error:"+what+":"+slug+":next-frame-misread", id, bad)
+				}
+				r.Outcome("hdr:after-stream-error:next-frames-intact")
+				return
+			}
 			if sentinels {
-				// Recorded, not judged: the statement demands nothing of the stream behind a
-				// refused frame (bfe's serve loop closes the connection on every ReadFrame error).
+				// Recorded, not judged: a session-level error (StreamId 0, io/zlib errors) ends the
+				// session; the statement demands nothing of the stream behind it.
 				// Only attempted when no decompressor was created (its state is unknowable here).
 				if rf.headerDecompressor == nil {
 					var bad string
@@ -1382,9 +1674,10 @@ func TestVerifC39(t *testing.T) {
 	c39nozlib = false
 	c39partB1(r)
 	nforged := c39partB2(r)
+	ndef, nvict := c39partB4(r)
 	nw, maxW := c39partB3(r)
-	r.Set("bounds", fmt.Sprintf("A1: 9 frame types x field alphabets x %d header sets; A: all sequences of <=%d frames over %d frame symbols (incl. 8 writes the framer refuses) through one Framer pair, once with zlib header compression and once with headerCompressionDisabled, + length-4 sequences over %d symbols (thorough only: %v); B1: 12 control types x versions x 4 flags x ~17 declared lengths x {complete+sentinels, cut}; B2: 3 frame types x %d forged header blocks x 3 frame-length adjustments; B3: all streams of <=%d words over %d words; allocation bound %d + %d*(8+declared length)",
-		len(hsets), depth, nsym, nsym4, r.Thorough(), nforged, maxW, nw, c39K0, c39C))
+	r.Set("bounds", fmt.Sprintf("A1: 9 frame types x field alphabets x %d header sets; A: all sequences of <=%d frames over %d frame symbols (incl. 8 writes the framer refuses) through one Framer pair, once with zlib header compression and once with headerCompressionDisabled, + length-4 sequences over %d symbols (thorough only: %v); B1: 12 control types x versions x 4 flags x ~17 declared lengths x {complete+sentinels, cut}; B2: 3 frame types x %d forged header blocks x 3 frame-length adjustments; B4: {zlib, no compression} x 3 header-carrying types x %d header blocks (stream-scoped defect at first/middle/last name) x stream ids {1,2,0} x every sequence of 1..2 of %d follower frames + HEADERS + PING + DATA; B3: all streams of <=%d words over %d words; allocation bound %d + %d*(8+declared length)",
+		len(hsets), depth, nsym, nsym4, r.Thorough(), nforged, ndef, nvict, maxW, nw, c39K0, c39C))
 	r.Sample(map[string]interface{}{"header_set_classes": func() []string {
 		var s []string
 		for _, h := range hsets {
